@@ -216,30 +216,25 @@ Definition is_excluded_combination (di : asg) : bool :=
   || existsb (fun e => forallb (fun p => match alookup di (fst p) with Some l => l =? snd p | None => false end) e)
              (fl_excluded_derived fb).
 
-Fixpoint all_some_nat (xs : list (option nat)) : option (list nat) :=
-  match xs with
-  | [] => Some []
-  | Some x :: r => option_map (cons x) (all_some_nat r)
-  | None :: _ => None
-  end.
-
+(** a derived (non-complex) level of the combination is impossible if no choice
+    of levels for the window factors outside the combination satisfies its
+    predicate (this agrees with [__count_exclusions]) *)
 Definition is_excluded_or_inconsistent_combination (di : asg) : bool :=
   if is_excluded_combination di then true
-  else match fl_crossings fb with
-       | [] => false
-       | c0 :: _ =>
-         existsb (fun f =>
-           if is_derived fb f && negb (is_complex fb f) then
-             match alookup di f, window_of f with
-             | Some l, Some w =>
-               match all_some_nat (map (alookup di) (win_deps w)) with
-               | Some args => negb (predicate f l (map (fun a => [Some a]) args))
-               | None => false
-               end
-             | _, _ => false
-             end
-           else false) c0
-       end.
+  else
+    existsb (fun fl =>
+      let f := fst fl in
+      if is_derived fb f && negb (is_complex fb f) then
+        match window_of f with
+        | Some w =>
+          let argss := map (fun df => match alookup di df with
+                                      | Some x => [x]
+                                      | None => all_levels df
+                                      end) (win_deps w) in
+          negb (existsb (fun args => predicate f (snd fl) (map (fun a => [Some a]) args)) (product argss))
+        | None => false
+        end
+      else false) di.
 
 (** * UCSolutionEnumerator.__init__ *)
 Definition instances_of (fs : list nat) : list asg :=
@@ -343,8 +338,8 @@ Definition jth_permutation_indices (qq trial_count component : Z) (memo : memo_t
        kperm r.
 
 (** the filter of [__count_solutions]: per crossing instance the indices of the
-    allowed source combinations ([sc_indices.remove] raises when the index was
-    already removed; [merged_levels[f]] raises KeyError) *)
+    allowed source combinations (the first rejecting derived factor removes the
+    index and ends the loop; [merged_levels[f]] raises KeyError) *)
 Definition source_allowed (ci sc : asg) : rres bool :=
   let merged := ci ++ sc in   (* {**ci, **sc}: keys are disjoint *)
   let fix go (dfs : list nat) (removed : bool) : rres bool :=
@@ -357,7 +352,7 @@ Definition source_allowed (ci sc : asg) : rres bool :=
           w <-- of_opt AttributeError (window_of df) ;;;
           args <-- rmap (fun f => of_opt KeyError (alookup merged f)) (win_deps w) ;;;
           if predicate df l (map (fun a => [Some a]) args) then go t removed
-          else if removed then RErr ValueError else go t true
+          else ROk false          (* sc_indices.remove(sc_idx); break *)
       end in
   go (crossed_noncomplex_derived (eb_mf eb)) false.
 
@@ -636,8 +631,14 @@ Definition factor_preamble_size (f : nat) : rres Z :=
   let idxs := filter (fun i => memb f (nth i (fl_crossings fb) [])) (seq 0 (length (fl_crossings fb))) in
   match idxs with
   | [] => ROk 0%Z
-  | [i] => block_preamble_size i
-  | i :: _ => _ <-- block_preamble_size i ;;; RErr ValueError
+  | i :: rest =>
+    size <-- block_preamble_size i ;;;
+    (fix go (is : list nat) : rres Z :=
+       match is with
+       | [] => ROk size
+       | j :: t => c_size <-- block_preamble_size j ;;;
+                   if (size =? c_size)%Z then go t else RErr ValueError
+       end) rest
   end.
 
 Fixpoint sequential_loop (fuel : nat) (row : list (option nat)) (nl pre su i : nat) : rres bool :=
